@@ -256,7 +256,7 @@ def decoder_query(name, entry, L, rl, extra=None, tiers=("thorough",), timeout=1
                         "_ZN9graphite22vm7Machine4Code7decoder4loadEPKhS5_.recursion": 2,
                         "_ZN9graphite22vm7Machine4Code7decoder11emit_opcodeENS0_6opcodeERPKh.recursion": 2,
                         "lid:ll_memmove_sym": 2 * L + 12, "lid:ll_realloc_split": 2 * L + 12, "lid:ll_malloc_split": 2 * L + 12, "lid:ll_calloc_split": 2 * L + 12},
-             tiers=tiers, timeout=timeout, cc_defs=["LL_MEM_CASES=" + ",".join(str(k) for k in sorted(set(list(range(0, L + 3)) + [8 * i for i in range(1, L + rl + 4)])))],
+             tiers=tiers, timeout=timeout, cc_defs=["LL_MEM_CASES=" + ",".join(str(k) for k in sorted(set(list(range(0, L + 3)) + [8 * i for i in range(1, L + rl + 5)] + [40, 48, 56, (L + 1 + rl) * 8 + L, (L + 1) * 8 + L])))],
              unit_flags={"Code": ["-fno-inline"]}, stubs=[DECODER_CTOR])
 def c01_decoder():
     qs = []
